@@ -82,6 +82,25 @@ def run(e: Engine, rep: Report):
              'class, or a function none of whose returns is None): only a '
              'factory the application plugged in may decline')
     b12(e, rep)
+    rep.rule('B13', '= C03-R3.6: the positions marked settled are positions '
+             'in the recipient list of the envelope at hand (a recipient '
+             'filed under the wrong position is bounced again, another one '
+             'is dropped without a bounce)')
+    from . import c03 as _c03
+    _c03.r36(e, rep, 'B13')
+    rep.rule('B14', 'building the bounce cannot fail on the text of the '
+             'original: no strict text conversion (table c11.TEXT_RAISES) '
+             'raises out of Bounce.__init__ - the failed message is already '
+             'gone from the queue when the bounce is built')
+    from . import c20 as _c20
+    _c20.text_escape(
+        e, rep, 'B14', e.method_ctx(BOUNCE, '__init__'), 'Bounce()',
+        '`%s` raises for an original with 8-bit content and no arm of the '
+        'right class catches it (decode raises UnicodeDecodeError, encode '
+        'UnicodeEncodeError): the bounce is never enqueued and the sender '
+        'is not told that the message was lost',
+        # (the application's own templates are configuration, not input)
+        deny=['_check_custom_templates'])
 
 
 def b5(e: Engine, rep: Report):
